@@ -191,22 +191,25 @@ def r3_merge_and_removal(rep, ctx):
     rep.check(own_zero and total_zero, "C04.R3", "removal:test", "a category is dropped when its own exponent is 0 or the total exponent of its unit is 0",
               "the removal test `%s` does not cover %s" % (ast.unparse(cond), "'own exponent is 0'" if not own_zero else "'per-unit total is 0'"), node=d, fn=fn)
     create = [c for c in own_nodes(fn.node) if isinstance(c, ast.Call) and isinstance(c.func, ast.Attribute) and c.func.attr in ("CreateDerived", "_CreateDerived")]
-    if len(create) != 1:
+    if not create:
         raise AnalysisError("new-quantity routine: CreateDerived call not found")
     loop = d
     while loop is not None and not isinstance(loop, ast.For):
         loop = getattr(loop, "_parent", None)
-    dom = cfg.dominated_by_node(cfg.node_of(create[0]), lambda k, a: a is loop)
-    rep.check(dom, "C04.R3", "removal:dominates-creation", "every path to CreateDerived passes the removal loop", "a path reaches CreateDerived without passing the removal loop", node=create[0], fn=fn)
-    same = bool(create[0].args) and res.term(create[0].args[0]) == MAP1 and isinstance(d.targets[0], ast.Subscript) and res.term(d.targets[0].value) == MAP1
-    rep.check(same, "C04.R3", "removal:same-map", "the cleaned map is the one the result is created from", "CreateDerived is given another map than the one that was cleaned", node=create[0], fn=fn)
+    for ci_, cr in enumerate(sorted(create, key=program_order(fn.node))):
+        # (every creation of the result - a fast path included - comes after the removal of cancelled categories)
+        sfx = "" if len(create) == 1 else ":%d" % ci_
+        dom = cfg.dominated_by_node(cfg.node_of(cr), lambda k, a: a is loop)
+        rep.check(dom, "C04.R3", "removal:dominates-creation" + sfx, "every path to CreateDerived passes the removal loop", "a path reaches `%s` without passing the removal of the cancelled (exponent 0) categories: a * (b / a) keeps a 'a ** 0' factor and is not equal to b" % norm(ast.unparse(cr))[:60], node=cr, fn=fn)
+        same = bool(cr.args) and res.term(cr.args[0]) == MAP1 and isinstance(d.targets[0], ast.Subscript) and res.term(d.targets[0].value) == MAP1
+        rep.check(same, "C04.R3", "removal:same-map" + sfx, "the cleaned map is the one the result is created from", "CreateDerived is given another map than the one that was cleaned", node=cr, fn=fn)
     # per-unit totals accumulate the exponent of every entry
     rep.check(len(accs) == 1, "C04.R3", "removal:per-unit-total", "the per-unit total adds up the exponents of all categories using that unit",
               "the per-unit total is not `total[unit] = total.get(unit, 0) + exponent` over every entry of the merged map", fn=fn)
     # value operation
     rets = [r for r in own_nodes(fn.node) if isinstance(r, ast.Return) and r.value is not None]
-    want = ("tuple", (res.term(create[0]), ("call", P["operation"], (V1, V2), ())))
-    ok = len(rets) == 1 and res.term(rets[0].value) == want
+    wants = [("tuple", (res.term(cr), ("call", P["operation"], (V1, V2), ()))) for cr in create]
+    ok = bool(rets) and all(any(a_ in wants for a_ in alternatives(res.term(r.value))) and all(a_ in wants for a_ in alternatives(res.term(r.value))) for r in rets)
     rep.check(bool(ok), "C04.R3", "result", "the result is (created quantity, operation(value1, value2))", "the result is %s" % (show(res.term(rets[0].value), 200) if rets else None), fn=fn)
 
 
